@@ -247,6 +247,8 @@ def run_estimator(desc):
         # the fresh object raising as well means the data B is simply not admissible for this estimator
         try:
             fresh2, _ = _make_est(fam, name, None if shared is None else dict(shared_before and {"gamma": "mean"} if name == "pwc_shared_dict" else {"gamma": 0.5}))
+            for change in applied:           # same configuration as the used object
+                fresh2.set_params(**change)
             fresh2.fit(XB, yB)
             _predict_all(fresh2, Q, fam)
             add("refit-raises-but-fresh-fit-works", "%s: %s" % (type(ex).__name__, str(ex)[:150]))
